@@ -247,16 +247,16 @@ async def run(ctx):
         ctx.violation(kind, message, extra)
 
     with PairingMonitor(on_violation) as mon:
-        for i in range(ctx.budget(220, 22_000)):
+        for i in range(ctx.budget(600, 30_000)):
             case = gen_case(rng)
             await check_orders(ctx, case)
             if i % 60 == 0:
                 ctx.sample({"s": case["s"], "packages": case["table"]}, cls="orders")
-        for i in range(ctx.budget(60, 6_000)):
+        for i in range(ctx.budget(150, 8_000)):
             case = gen_case(rng)
             case["k"] = rng.randint(2, 5)
             await check_isolation(ctx, case)
-        for i in range(ctx.budget(40, 4_000)):
+        for i in range(ctx.budget(100, 5_000)):
             for _ in range(50):
                 case = gen_case(rng)
                 if not case["table"] and len(case["rc_keys"]) + len(case["fc_keys"]) <= 4 and case["rc_keys"]:
